@@ -7,8 +7,8 @@ use_formula_memo()
 import os as _os
 TIER = _os.environ.get("VERIF_TIER", "quick")
 N = 3
-KINDS = ["raise", "zerodiv", "none"]
-ERR = {"raise": "ValueError", "zerodiv": "ZeroDivisionError", "none": "NoneReturnedError"}
+KINDS = ["raise", "zerodiv", "none", "base", "assign"]
+ERR = {"raise": "ValueError", "zerodiv": "ZeroDivisionError", "none": "NoneReturnedError", "base": "Boom", "assign": "ValueError"}
 
 
 def _state_ok(d, done, what):
@@ -70,7 +70,7 @@ def _request(d, q, t, kind, F, FT, done):
 @harness
 def failure(v0: int, v1: int, v2: int, z: int, g: int, p1_1: int, p2_1: int, p1_2: int, p2_2: int,
             T0: bool, T1: bool, T2: bool, kind: int, F: int, FT: int, q1: int, t1: int, q2: int, t2: int) -> bool:
-    kind, F, FT, q1, t1, q2, t2 = pick(kind, 0, 2), pick(F, 0, 2), pick(FT, 0, 1), pick(q1, 0, 2), pick(t1, 0, 1), pick(q2, 0, 2), pick(t2, 0, 1)
+    kind, F, FT, q1, t1, q2, t2 = pick(kind, 0, 4), pick(F, 0, 2), pick(FT, 0, 1), pick(q1, 0, 2), pick(t1, 0, 1), pick(q2, 0, 2), pick(t2, 0, 1)
     kind = KINDS[kind]
     d = Dag(N, fail=kind)
     d.bind([v0, v1, v2], [-1, p1_1, p1_2], [-1, p2_1, p2_2], [T0, T1, T2], z, g, F=F, FT=FT)
@@ -134,15 +134,15 @@ _NAT = dict(v0=1, v1=2, v2=3, z=4, g=5, p1_1=0, p2_1=-1, p1_2=1, p2_2=0, T0=True
 
 def _parts(tier, seed):
     if tier == "quick":
-        return product(kind=[0, 1, 2], F=[0, 1, 2], FT=[0, 1], q1=[2], t1=[1], q2=[2, 1, 0], t2=[1], T0=[False], T1=[False])
-    return product(kind=[0, 1, 2], F=[0, 1, 2], FT=[0, 1], q1=[1, 2], t1=[0, 1])
+        return product(kind=[0, 1, 2], F=[0, 1, 2], FT=[0, 1], q1=[2], t1=[1], q2=[2, 1, 0], t2=[1], T0=[False], T1=[False]) + product(kind=[3, 4], F=[0, 1, 2], FT=[0, 1], q1=[2], t1=[1], q2=[2], t2=[1], T0=[False], T1=[False])
+    return product(kind=[0, 1, 2, 3, 4], F=[0, 1, 2], FT=[0, 1], q1=[1, 2], t1=[0, 1])
 
 
 QUERIES = [
     Query("failure", failure,
-          pre=dag_pre(N) + ["0 <= kind < 3", "0 <= F < 3", "0 <= FT <= 1", "0 <= q1 < 3", "0 <= t1 <= 1", "0 <= q2 < 3", "0 <= t2 <= 1"],
+          pre=dag_pre(N) + ["0 <= kind < 5", "0 <= F < 3", "0 <= FT <= 1", "0 <= q1 < 3", "0 <= t1 <= 1", "0 <= q2 < 3", "0 <= t2 <= 1"],
           partitions=_parts,
-          natives=[dict(_NAT, kind=k, F=f, FT=ft, q1=2, t1=1, q2=q2, t2=0) for k in range(3) for (f, ft, q2) in ((0, 0, 1), (1, 1, 2), (2, 0, 0))],
+          natives=[dict(_NAT, kind=k, F=f, FT=ft, q1=2, t1=1, q2=q2, t2=0) for k in range(5) for (f, ft, q2) in ((0, 0, 1), (1, 1, 2), (2, 0, 0))],
           bounds=lambda tier: {"cells": N, "t_max": 1, "failure_kinds": KINDS, "failure_position": "every (cells, t)", "requests": "request (may fail), second request (quick: any cells at t=1; thorough: any element, then a retry of the first), repair, re-request",
                                "dag": "pointers symbolic; recursion on top cells only in quick"},
           outside=["exceptions other than ValueError/ZeroDivisionError/None-returned/DeepReferenceError", "N > 3",
